@@ -76,6 +76,12 @@ def arg_menus(name, fn, a, b, d, z):
         extra += [(([a, z],), {}), ((a,), {})]
     if 'data' in opt and not req:
         extra += [((), {'data': True})]
+    if name == 'add_edge':
+        extra += [((a, b, {'weight': 3}), {}), ((a, z), {'weight': 3}), ((), {'u': a, 'v': b})]
+    if name == 'add_edges_from':
+        extra += [(([(a, b)], {'weight': 3}), {}), (([(a, z)],), {'weight': 3})]
+    if name in ('remove_edge',):
+        extra += [((), {'u': a, 'v': b})]
     if name in ('add_node',):
         extra += [((d,), {'label': 'X'})]
     if name in ('add_nodes_from',):
@@ -171,9 +177,16 @@ def check_state(conf, hist, G0, M):
                 G = fresh()
     for name, argsets in (('set_edge_attributes', (({(a, b): 1}, 'w'), ({(a, b): {'w': 1}},), (3, 'w'))),
                           ('get_edge_attributes', (('w',), ('t',)))):
-        for args in argsets:
+        for args in list(argsets) + ['KW']:
             cnt['calls'] += 1
-            out = do_call(G, name, args, {}, functional=True)
+            if args == 'KW':        # the graph passed by keyword
+                try:
+                    getattr(dn, name)(G=G, name='w', **({'values': {(a, b): 1}} if name == 'set_edge_attributes' else {}))
+                    out = 'ok'
+                except Exception as ex:
+                    out = type(ex).__name__
+            else:
+                out = do_call(G, name, args, {}, functional=True)
             if out != 'NetworkXNotImplemented':
                 bad('blocked-callable-not-blocked', {'call': 'dn.%s(G, *%r)' % (name, args), 'outcome': out}, callable='dn.' + name, outcome=out)
             if observe.canon_impl(G) != key0:
